@@ -48,38 +48,38 @@ Section DecodeTrait.
 
   (* ---------------- JSON *)
   (* untyped string constants are plain strings: matched by the very first attempt *)
-  Lemma json_plain_string : forall jv s, cellv = DStr s -> jv_string jv = Some s ->
+  Lemma json_plain_string : forall jv s, jv_null jv = false -> cellv = DStr s -> jv_string jv = Some s ->
     unambiguous t (json_attempts t jv) owner -> decode_json t jv = Some owner.
   Proof.
-    intros jv s Hcell Hs Hu. apply (decode_trait_json d o t Hwf Hgen c r jv Hc Hp Hr); [|exact Hu].
+    intros jv s Hnn Hcell Hs Hu. apply (decode_trait_json d o t Hwf Hgen c r jv Hc Hp Hr Hnn); [|exact Hu].
     fold cellv. rewrite Hcell. unfold json_attempts, json_attempts_gen. rewrite Hs. apply in_or_app. left. left. reflexivity.
   Qed.
-  Lemma json_typed_string : forall jv s, col_kind c = KString -> ti_json_own (col_info c) = false ->
+  Lemma json_typed_string : forall jv s, jv_null jv = false -> col_kind c = KString -> ti_json_own (col_info c) = false ->
     cellv = typed c (PStr s) -> jv_string jv = Some s ->
     unambiguous t (json_attempts t jv) owner -> decode_json t jv = Some owner.
   Proof.
-    intros jv s Hk Ho Hcell Hs Hu. apply (decode_trait_json d o t Hwf Hgen c r jv Hc Hp Hr); [|exact Hu].
+    intros jv s Hnn Hk Ho Hcell Hs Hu. apply (decode_trait_json d o t Hwf Hgen c r jv Hc Hp Hr Hnn); [|exact Hu].
     fold cellv. rewrite Hcell. apply json_tries_string; [|assumption]. apply in_family; assumption.
   Qed.
-  Lemma json_int : forall jv z, col_kind c = KInt64 -> ti_json_own (col_info c) = false ->
+  Lemma json_int : forall jv z, jv_null jv = false -> col_kind c = KInt64 -> ti_json_own (col_info c) = false ->
     cellv = typed_int c z -> conv_int (col_bkind c) z = z -> jv_i64 jv = Some z ->
     unambiguous t (json_attempts t jv) owner -> decode_json t jv = Some owner.
   Proof.
-    intros jv z Hk Ho Hcell Hfit Hs Hu. apply (decode_trait_json d o t Hwf Hgen c r jv Hc Hp Hr); [|exact Hu].
+    intros jv z Hnn Hk Ho Hcell Hfit Hs Hu. apply (decode_trait_json d o t Hwf Hgen c r jv Hc Hp Hr Hnn); [|exact Hu].
     fold cellv. rewrite Hcell. apply json_tries_int; [|assumption|exact Hfit]. apply in_family; assumption.
   Qed.
-  Lemma json_uint : forall jv z, col_kind c = KUint64 -> ti_json_own (col_info c) = false ->
+  Lemma json_uint : forall jv z, jv_null jv = false -> col_kind c = KUint64 -> ti_json_own (col_info c) = false ->
     cellv = typed_int c z -> conv_int (col_bkind c) z = z -> jv_u64 jv = Some z ->
     unambiguous t (json_attempts t jv) owner -> decode_json t jv = Some owner.
   Proof.
-    intros jv z Hk Ho Hcell Hfit Hs Hu. apply (decode_trait_json d o t Hwf Hgen c r jv Hc Hp Hr); [|exact Hu].
+    intros jv z Hnn Hk Ho Hcell Hfit Hs Hu. apply (decode_trait_json d o t Hwf Hgen c r jv Hc Hp Hr Hnn); [|exact Hu].
     fold cellv. rewrite Hcell. apply json_tries_uint; [|assumption|exact Hfit]. apply in_family; assumption.
   Qed.
-  Lemma json_native : forall jv p, ti_json_own (col_info c) = true ->
+  Lemma json_native : forall jv p, jv_null jv = false -> ti_json_own (col_info c) = true ->
     cellv = typed c p -> lookup (col_type c) (jv_native jv) = Some (Some p) ->
     unambiguous t (json_attempts t jv) owner -> decode_json t jv = Some owner.
   Proof.
-    intros jv p Ho Hcell Hs Hu. apply (decode_trait_json d o t Hwf Hgen c r jv Hc Hp Hr); [|exact Hu].
+    intros jv p Hnn Ho Hcell Hs Hu. apply (decode_trait_json d o t Hwf Hgen c r jv Hc Hp Hr Hnn); [|exact Hu].
     fold cellv. rewrite Hcell. apply json_tries_native; [|assumption]. apply in_family_own; assumption.
   Qed.
 
@@ -148,7 +148,7 @@ Definition json_holds (c : column) (jv : jview) (x : dyn) : Prop :=
 Definition C12_full_statement : Prop :=
   forall d o t, wf_defn d -> gen d o = Built t ->
   forall c r jv, In c (t_cols t) -> col_parsable c = true -> In r (col_rows c) ->
-  json_holds c jv (cl_val (r_cell r)) ->
+  jv_null jv = false -> json_holds c jv (cl_val (r_cell r)) ->
   unambiguous t (json_attempts t jv) (g_z (r_owner r)) ->
   decode_json t jv = Some (g_z (r_owner r)).
 
@@ -162,7 +162,7 @@ Definition bw_defn : defn :=
      d_types := [("bool", {| ti_bkind := BUntypedBool; ti_json_own := false; ti_yaml_own := false; ti_text_own := false |})] |}.
 Definition bw_opts : opts :=
   {| o_json := true; o_yaml := true; o_text := true; o_ci := false; o_notraits := false; o_parsable := ["Flag"] |}.
-Definition bw_true : jview := {| jv_string := None; jv_u64 := None; jv_i64 := None; jv_native := [] |}.
+Definition bw_true : jview := {| jv_null := false; jv_string := None; jv_u64 := None; jv_i64 := None; jv_native := [] |}.
 
 Lemma bw_wf : wf_defn bw_defn.
 Proof.
@@ -191,6 +191,7 @@ Proof.
     - vm_compute. left. reflexivity.
     - vm_compute. reflexivity.
     - vm_compute. right. left. reflexivity.
+    - reflexivity.
     - vm_compute. repeat split.
     - intros y w Hy. vm_compute in Hy. contradiction. }
   vm_compute in E. discriminate.
@@ -213,11 +214,11 @@ Definition yaml_holds_decodable (c : column) (yv : yview) (x : dyn) : Prop :=
 
 Lemma json_partial : forall d o t, wf_defn d -> gen d o = Built t ->
   forall c r jv, In c (t_cols t) -> col_parsable c = true -> In r (col_rows c) ->
-  json_holds_decodable c jv (cl_val (r_cell r)) ->
+  jv_null jv = false -> json_holds_decodable c jv (cl_val (r_cell r)) ->
   unambiguous t (json_attempts t jv) (g_z (r_owner r)) ->
   decode_json t jv = Some (g_z (r_owner r)).
 Proof.
-  intros d o t Hwf Hg c r jv Hc Hp Hr H Hu.
+  intros d o t Hwf Hg c r jv Hc Hp Hr Hnn H Hu.
   destruct H as [[s [E V]]|[[s [K [O [E V]]]]|[[z [K [O [E [F V]]]]]|[[z [K [O [E [F V]]]]]|[p [O [E V]]]]]]].
   - eapply json_plain_string; eauto.
   - eapply json_typed_string; eauto.
